@@ -1833,9 +1833,11 @@ class t2data(object):
         self.delete_section('LINEQ')
         # Convert MOPs:
         warnings = []
+        conductivity_converted = False
         if self.parameter['option'][10] == 2:
             self.parameter['option'][10] = 0
             self.convert_mulkom_heat_conductivity()
+            conductivity_converted = True
             warnings.append('MOP(10)=2: MULKOM rock heat conductivities' + \
                             ' (values have been converted to TOUGH2 equivalents)')
         if self.parameter['option'][12] == 2:
@@ -1850,7 +1852,7 @@ class t2data(object):
                     (not self.simulator.startswith('AUTOUGH2.2'))
             ismulkom = self.simulator.startswith('MULKOM')
             mulkom_compatibility = self.parameter['option'][23] in [0, 1]
-            if (isat2 or ismulkom) and mulkom_compatibility:
+            if (isat2 or ismulkom) and mulkom_compatibility and not conductivity_converted:
                 self.convert_mulkom_heat_conductivity()
                 warnings.append('MOP(23)>0: MULKOM/TOUGH2 backward compatibility')
             self.parameter['option'][23] = 0
